@@ -6,6 +6,12 @@ use-def expansion (sa.valueflow) -- nothing is imported or called.
 * `variants(cls, meth)`: every (dispatch arm x truthiness of optional factors x
   inner branch) of a `rateexpr` / `rate_*` method as C text with typed holes.
 * `registry(cls)`: ordered symbol registrations of the class's __init__ chain.
+
+Spelling-independence of `variants`: constants hoisted out of the method are read as their displays (`module_consts`, also through
+`from .module import NAME`; `class_displays` / `class_consts` for tables read through self/cls); a method that scans such a table is
+re-normalised with the table in place (`specialised`: the scan unrolls into the chain); private helper methods and small module-level
+helper functions are inlined by value, keeping their refusing (`raise`) arms; table-driven dispatch (dict display subscripted / .get,
+table of lambdas, table of text templates filled with str.format / %) is read as the if/elif chain it abbreviates (`lookup_chains`).
 """
 from __future__ import annotations
 
@@ -75,6 +81,59 @@ def _comp_filter_eval(v, assume):
     return v
 
 
+def lookup_chains(v, depth=0):
+    """Table-driven dispatch read as the if/elif chain it abbreviates (values only, nothing is run):
+        {k1: v1, k2: v2}[key]            ->  phi(key == k1, v1, phi(key == k2, v2, raise KeyError))
+        {k1: v1, ..}.get(key[, default]) ->  ... else default (None)
+        <phi of lambdas>(args)           ->  phi of the bodies with the parameters bound
+    for dict displays whose keys are constants / enum members.  Applied to the value a rate builder returns, so that each row of
+    the table becomes a variant with its own dispatch condition."""
+    if not isinstance(v, tuple) or not v or depth > 40:
+        return v
+    v = tuple(lookup_chains(x, depth + 1) if isinstance(x, tuple) else x for x in v)
+
+    def table(d):
+        return d[0] == "dict" and 0 < len(d[1]) <= 40 and all(k_[0] == "const" or (k_[0] == "attr" and k_[2].isupper()) for k_, _ in d[1])
+
+    def chain(d, key, default):
+        out = default
+        for k_, val in reversed(d[1]):
+            out = ("phi", ("cmp", ("Eq",), (key, k_)), val, out)
+        return out
+    if v[0] == "sub" and table(v[1]) and v[2][0] != "slice":
+        return chain(v[1], v[2], ("raise", ("global", "KeyError")))
+    if v[0] == "meth" and v[2] == "get" and table(v[1]) and len(v[3]) in (1, 2) and not v[4]:
+        return chain(v[1], v[3][0], v[3][1] if len(v[3]) == 2 else ("const", None))
+    # a template picked from the table and filled in: <phi of literal templates>.format(..) / <phi> % (..) is the phi of the filled templates
+    if (v[0] == "meth" and v[2] == "format" and v[1][0] == "phi") or (v[0] == "binop" and v[1] == "Mod" and v[2][0] == "phi"):
+        def fill(t):
+            if t[0] == "phi":
+                a, b = fill(t[2]), fill(t[3])
+                return None if a is None or b is None else ("phi", t[1], a, b)
+            if t[0] == "raise":
+                return t
+            if t[0] == "const" and isinstance(t[1], str):
+                return Flow._format_to_fstr(t[1], v[3], dict(v[4])) if v[0] == "meth" else Flow._percent_to_fstr(t[1], v[3])
+            return None
+        r = fill(v[1] if v[0] == "meth" else v[2])
+        if r is not None:
+            return r
+    if v[0] == "call" and v[1][0] == "phi" and not v[3] and not any(a[0] == "star" for a in v[2]):
+        def apply(f):
+            if f[0] == "phi":
+                a, b = apply(f[2]), apply(f[3])
+                return None if a is None or b is None else ("phi", f[1], a, b)
+            if f[0] == "raise" or f == ("const", None):
+                return f if f[0] == "raise" else ("raise", ("global", "TypeError"))
+            if f[0] == "lambda" and len(f[1]) == len(v[2]):
+                return simp(subst(f[2], dict(zip(f[1], v[2]))))
+            return None
+        r = apply(v[1])
+        if r is not None:
+            return r
+    return v
+
+
 def surface_helper(pkg) -> str:
     """Name of the private grain method that builds the shared surface-reaction rate (called as self.<name>(reac) from
     rate_surface_twobody / rate_reactive_desorption) -- found by role so that renaming it is not an analysis failure."""
@@ -114,6 +173,25 @@ class RateModel:
         self._enum = None
         self._mconsts = {}
         self._cconsts = {}
+        self._cdisp = {}
+        self._spec = {}
+        self._fnfile = None
+
+    def imported_from(self, file: str, alias: str):
+        """(file, name) of the package module a name was imported from with `from .module import name [as alias]`, or None"""
+        import posixpath
+        modname, name = self.pkg.imports.get(file, {}).get(alias, (None, None))
+        if name is None or not modname or not modname.startswith("."):
+            return None
+        level = len(modname) - len(modname.lstrip("."))
+        base = posixpath.dirname(file)
+        for _ in range(level - 1):
+            base = posixpath.dirname(base)
+        rel = modname.lstrip(".").replace(".", "/")
+        for cand in ([posixpath.join(base, rel + ".py"), posixpath.join(base, rel, "__init__.py")] if rel else [posixpath.join(base, "__init__.py")]):
+            if cand in self.pkg.modules and cand != file:
+                return (cand, name)
+        return None
 
     # ---------------------------------------------------------------- constants hoisted out of the methods
     def module_consts(self, file: str) -> dict:
@@ -138,6 +216,14 @@ class RateModel:
                             if isinstance(t, ast.Subscript) and isinstance(t.value, ast.Name):
                                 count[t.value.id] = count.get(t.value.id, 0) + 2
                 # (names bound once in the whole module: a function-local of the same name disqualifies, which is the safe side)
+                # a constant imported from another module of the package (`from .tables import _ON_GRAIN`) is that module's constant
+                self._mconsts[file] = out          # (cycle guard: a module being resolved exposes what it has so far)
+                for alias in self.pkg.imports.get(file, {}):
+                    tgt = self.imported_from(file, alias)
+                    if tgt is not None and not count.get(alias):
+                        other = self.module_consts(tgt[0])
+                        if tgt[1] in other:
+                            out[alias] = other[tgt[1]]
                 for st in mod.body:
                     if isinstance(st, ast.Assign) and len(st.targets) == 1 and isinstance(st.targets[0], ast.Name) and count.get(st.targets[0].id) == 1 \
                             and not isinstance(st.value, (ast.Name, ast.Attribute)) and _literal_like(st.value):
@@ -145,33 +231,81 @@ class RateModel:
             self._mconsts[file] = out
         return self._mconsts[file]
 
-    def class_consts(self, cls: str) -> dict:
-        """{("attr", self|cls, name): IR} for class-level tables (tuple / list / set / dict displays) that no method of the MRO
-        re-assigns through self/cls: `x in self._table` is `x in (<the display>)`"""
-        if cls not in self._cconsts:
+    def class_displays(self, cls: str) -> dict:
+        """{name: (display AST node, file)} of the class-level tables (tuple / list / set / dict displays of constants, enum members and
+        other names) visible through self/cls in `cls` (MRO, the most derived binding wins) that nothing in the MRO re-assigns
+        (`self.X = ..`, setattr), mutates in place (`self.X.append(..)`, `self.X[k] = ..`) or shadows by a method."""
+        if cls not in self._cdisp:
             out = {}
             mro = [c for c in self.pkg.mro(cls) if c in self.pkg.classes]
             stored = set()
+
+            def own(n):
+                """name X of an expression self.X / cls.X"""
+                return n.attr if isinstance(n, ast.Attribute) and isinstance(n.value, ast.Name) and n.value.id in ("self", "cls") else None
             for c in mro:
                 for fn in self.pkg.classes[c].methods.values():
                     for n in ast.walk(fn):
-                        if isinstance(n, ast.Attribute) and isinstance(n.ctx, (ast.Store, ast.Del)) and isinstance(n.value, ast.Name) and n.value.id in ("self", "cls"):
+                        if isinstance(n, ast.Attribute) and isinstance(n.ctx, (ast.Store, ast.Del)) and own(n):
                             stored.add(n.attr)
                         elif isinstance(n, ast.Call) and isinstance(n.func, ast.Name) and n.func.id in ("setattr", "delattr"):
                             stored.add("*")
+                        elif isinstance(n, ast.Call) and isinstance(n.func, ast.Attribute) and own(n.func.value) and n.func.attr in \
+                                ("append", "extend", "add", "update", "insert", "pop", "remove", "clear", "sort", "reverse", "setdefault", "popitem", "discard"):
+                            stored.add(n.func.value.attr)
+                        elif isinstance(n, ast.Subscript) and isinstance(n.ctx, (ast.Store, ast.Del)) and own(n.value):
+                            stored.add(n.value.attr)
             for c in reversed(mro):
                 ci = self.pkg.classes[c]
                 for nm, node in ci.attrs.items():
                     if isinstance(node, (ast.Tuple, ast.List, ast.Set, ast.Dict)) and _literal_like(node) and nm not in stored and "*" not in stored \
                             and not any(nm in self.pkg.classes[k].methods for k in mro):
-                        ir = simp(_ev_literal(node, self.module_consts(ci.file)))
-                        out[("attr", SELF, nm)] = ir
-                        out[("attr", ("param", "cls"), nm)] = ir
+                        out[nm] = (node, ci.file)
                     else:
-                        out.pop(("attr", SELF, nm), None)
-                        out.pop(("attr", ("param", "cls"), nm), None)
+                        out.pop(nm, None)
+            self._cdisp[cls] = out
+        return self._cdisp[cls]
+
+    def class_consts(self, cls: str) -> dict:
+        """{("attr", self|cls, name): IR} for the class-level tables of class_displays: `x in self._table` is `x in (<the display>)`"""
+        if cls not in self._cconsts:
+            out = {}
+            for nm, (node, file) in self.class_displays(cls).items():
+                ir = simp(_ev_literal(node, self.module_consts(file)))
+                out[("attr", SELF, nm)] = ir
+                out[("attr", ("param", "cls"), nm)] = ir
             self._cconsts[cls] = out
         return self._cconsts[cls]
+
+    def specialised(self, cls: str, fn):
+        """`fn` (a method seen from class `cls`) with every read of a class-level table through self/cls replaced by the display it is
+        bound to, and normalised again (core._Canon / normalize: a `for row in self._TABLE` scan is now a loop over a literal and is
+        unrolled into the if/elif chain it abbreviates, `getattr(self, <name from the row>)` becomes the attribute ..).  A copy; `fn`
+        itself when it reads no such table.  Only sequence tables (tuple / list) defined in the same module are substituted (their element
+        expressions mean the same there); dict / set tables are left to the IR-level substitution of class_consts."""
+        if self._fnfile is None:
+            self._fnfile = {id(m): ci.file for ci in self.pkg.classes.values() for m in ci.methods.values()}
+        ffile = self._fnfile.get(id(fn))
+        disp = {nm: node for nm, (node, file) in self.class_displays(cls).items() if isinstance(node, (ast.Tuple, ast.List)) and file == ffile}
+        hits = [n for n in ast.walk(fn) if isinstance(n, ast.Attribute) and isinstance(n.ctx, ast.Load) and isinstance(n.value, ast.Name)
+                and n.value.id in ("self", "cls") and n.attr in disp]
+        if not hits:
+            return fn
+        key = (cls, id(fn))
+        if key not in self._spec:
+            import copy
+            from .normalize import normalize_function, module_tables
+
+            class Sub(ast.NodeTransformer):
+                def visit_Attribute(self, n):
+                    self.generic_visit(n)
+                    if isinstance(n.ctx, ast.Load) and isinstance(n.value, ast.Name) and n.value.id in ("self", "cls") and n.attr in disp:
+                        return ast.copy_location(copy.deepcopy(disp[n.attr]), n)
+                    return n
+            new = ast.fix_missing_locations(Sub().visit(copy.deepcopy(fn)))
+            mod = self.pkg.modules.get(ffile)
+            self._spec[key] = normalize_function(new, module_tables(mod) if mod is not None else None)
+        return self._spec[key]
 
     # ---------------------------------------------------------------- enums
     def basic_types(self) -> dict:
@@ -247,7 +381,8 @@ class RateModel:
         dc, fn = self.pkg.resolve(cls, meth)
         if fn is None:
             raise AnalysisError(f"{cls}.{meth} not found", (self.pkg.cls(cls).file, 0), MISSING)
-        key = (dc, meth)
+        fn0, fn = fn, self.specialised(cls, fn)
+        key = (dc, meth) if fn is fn0 else (dc, meth, cls)
         if key not in self._flows:
             no_inline = {"_beautify", "_create_species", surface_helper(self.pkg), "_parse_string", "register", "unregister"}
 
@@ -255,8 +390,19 @@ class RateModel:
                 if name in no_inline or not name.startswith("_") or name.startswith("__"):
                     return None
                 _, f = self.pkg.resolve(cls, name)
+                return self.specialised(cls, f) if f is not None else None
+            dfile = self.pkg.cls(dc).file
+
+            def func_resolver(name):
+                """a small module-level helper function of the class's module (or imported from a package module) called by its bare name"""
+                if name in no_inline or name == "_fill_list":
+                    return None
+                f = self.pkg.functions.get((dfile, name))
+                if f is None:
+                    tgt = self.imported_from(dfile, name)
+                    f = self.pkg.functions.get(tgt) if tgt is not None else None
                 return f
-            self._flows[key] = Flow(fn, self.pkg.cls(dc).file, keep_arms=True, resolver=resolver, consts=self.module_consts(self.pkg.cls(dc).file))
+            self._flows[key] = Flow(fn, dfile, keep_arms=True, resolver=resolver, consts=self.module_consts(dfile), raise_arms=True, func_resolver=func_resolver)
         return dc, fn, self._flows[key]
 
     def variants(self, cls: str, meth: str = "rateexpr", enumerate_conditions=True) -> list:
@@ -277,6 +423,8 @@ class RateModel:
                 continue
             base = tuple((K(c), p) for c, p in f.guards)
             v = K(f.value)
+            if any(isinstance(x, tuple) and x and x[0] == "dict" for x in walk(v)):
+                v = simp(lookup_chains(v))
             beaut = False
             if v[0] == "meth" and v[1] == SELF and v[2] == "_beautify" and len(v[3]) == 1:
                 beaut = True
@@ -290,6 +438,10 @@ class RateModel:
                     leaf = leaf[3][0]
                 if leaf == ("global", "NotImplemented"):
                     out.append(Variant(cls, meth, dc, file, f.line, conds, {}, "notimplemented"))
+                    continue
+                if leaf[0] == "raise" and len(leaf) == 2:
+                    # a refusing arm of a dispatch chain that lives in an inlined helper (Flow(raise_arms=True))
+                    out.append(Variant(cls, meth, dc, file, f.line, conds, {}, "raise", exc=show(leaf[1])[:80] if leaf[1] != ("const", None) else ""))
                     continue
                 if leaf[0] == "meth" and leaf[2] == "rateexpr" and leaf[1] == ("param", "grain"):
                     out.append(Variant(cls, meth, dc, file, f.line, conds, {}, "delegate", raw=leaf))
